@@ -109,9 +109,20 @@ def r3_backoff(chk):
         capped = False
         for c in mins:
             for g in f.guards(c.blk, select_aware=False):
-                if g.atom[0] == "call" and g.atom[1].name in ("gt", "lt", "ne") and g.truth is True and "max_ivl" in " ".join(f.provenance(a) for a in g.atom[1].args):
+                if g.atom[0] != "call":
+                    continue
+                gc = g.atom[1]
+                pv = [f.provenance(a) for a in gc.args]
+                # the only way around the cap is `max_ivl == 0` (option unset): max_ivl > ZERO, ZERO < max_ivl, max_ivl != ZERO, !max_ivl.is_zero()
+                if gc.name == "gt" and len(pv) == 2 and pv[0] == "max_ivl" and pv[1].endswith("Duration::ZERO") and g.truth is True:
                     capped = True
-        (r.ok if capped else r.bad)(cfg, "on_connection_failure|delay capped by max_ivl when set", where(f, mins[0].blk if mins else 0), *([] if capped else ["the delay is not passed through min(max_ivl) on the max_ivl > 0 edge: delays can exceed RECONNECT_IVL_MAX"]))
+                if gc.name == "lt" and len(pv) == 2 and pv[1] == "max_ivl" and pv[0].endswith("Duration::ZERO") and g.truth is True:
+                    capped = True
+                if gc.name == "ne" and len(pv) == 2 and "max_ivl" in pv and any(x.endswith("Duration::ZERO") for x in pv) and g.truth is True:
+                    capped = True
+                if gc.name == "is_zero" and pv and pv[0] == "max_ivl" and g.truth is False:
+                    capped = True
+        (r.ok if capped else r.bad)(cfg, "on_connection_failure|delay capped by max_ivl when set", where(f, mins[0].blk if mins else 0), *([] if capped else ["the delay is not passed through min(max_ivl) whenever max_ivl is set (the only admissible way around the cap is max_ivl == 0): delays can exceed RECONNECT_IVL_MAX"]))
         # attempts read (pow) before increment
         pows = [c for c in f.calls if c.name == "saturating_pow"]
         incs = [b for b, i, st in f.statements() if st["k"] == "assign" and st["p"]["pr"] and st["p"]["pr"][-1][0] == "field" and st["p"]["pr"][-1][2] == "current_attempts"]
